@@ -373,6 +373,11 @@ pub trait Allocator<VM: VMBinding>: Downcast {
                 .allow_oom_call
             {
                 self.out_of_memory(tls);
+            } else {
+                // The request fails for good even though the binding is not told via the
+                // call-back: mark it, so that the slow path gives up instead of retrying an
+                // allocation that no collection can satisfy.
+                self.get_context().thrown_oom.store(true, Ordering::Relaxed);
             }
             return true;
         }
